@@ -677,7 +677,7 @@ class KnownValue(Value):
                 return f"Literal[frozenset({{{elements}}})]"
             return f"Literal[{{{elements}}}]"
         else:
-            return f"Literal[{self.val!r}]"
+            return f"Literal[{_literal_repr(self.val)}]"
 
     def substitute_typevars(self, typevars: TypeVarMap) -> "KnownValue":
         if not typevars or not callable(self.val):
@@ -692,6 +692,14 @@ class KnownValue(Value):
                 return self
             return TypedValue(type(val.val))
         return val.simplify()
+
+
+def _literal_repr(obj: object) -> str:
+    try:
+        return repr(obj)
+    except ValueError:
+        # an int with more digits than sys.get_int_max_str_digits() allows
+        return f"<{type(obj).__name__} too large to display>"
 
 
 def stable_set_order(elements: Iterable[object]) -> list[object]:
@@ -2123,12 +2131,12 @@ class MultiValuedValue(Value):
         if not others:
             if has_none:
                 literals.append(KnownValue(None))
-            body = ", ".join(repr(val.val) for val in literals)
+            body = ", ".join(_literal_repr(val.val) for val in literals)
             return f"Literal[{body}]"
         else:
             elements = [str(val) for val in others]
             if literals:
-                body = ", ".join(repr(val.val) for val in literals)
+                body = ", ".join(_literal_repr(val.val) for val in literals)
                 elements.append(f"Literal[{body}]")
             if has_none:
                 elements.append("None")
